@@ -448,7 +448,8 @@ type FuncContract struct {
 	Ensures    []Clause
 	Modifies   []Clause
 	HasMod     bool
-	Safety     map[string][]string // "panics"|"overflow" -> tags
+	ModTags    []string
+	Safety    map[string][]string // "panics"|"overflow" -> tags
 	Loops      int                 // -1 unspecified
 	LoopInv    map[int][]Clause
 	LoopMod    map[int][]Clause
@@ -715,6 +716,7 @@ func (cs *Contracts) parseFile(pkg string, raw []rawClause) error {
 				cur.Lemmas = append(cur.Lemmas, c)
 			case "modifies":
 				cur.HasMod = true
+				cur.ModTags = append(cur.ModTags, tags...)
 				if rest != "nothing" {
 					for _, part := range splitTop(rest, ',') {
 						c, err := mkClause(kw, tags, part, rc)
